@@ -166,7 +166,7 @@ impl Check for C06 {
                 events.push(Event { actor: who as u8, op: Op::Execute { lang: c.lang.clone(), text }, clock });
             }
         }
-        crate::gen::session_variants(&mut r, &mut events, 4, 12);
+        crate::gen::session_variants(&mut r, &mut events, 4, 12, 0);
         Trace { check: "C06".into(), seed, host_tz: env.host_tz.clone(), salt: r.next(), mode: if faults { "faults".into() } else { "fault-free".into() }, events }
     }
 
